@@ -817,6 +817,16 @@ class Dataset(AutoSerialize):
         # Compute which dimensions are kept
         kept_axes = [i for i, idx in enumerate(index) if not isinstance(idx, (int, np.integer))]
 
+        # NumPy moves the axis produced by a list/array index to the front when the advanced
+        # indices (integers together with that list) are separated by a slice, e.g. ds[0, :, [1, 2]]:
+        # list the kept axes in the order of the returned array
+        advanced = [
+            i for i, idx in enumerate(index) if isinstance(idx, (int, np.integer, list, np.ndarray))
+        ]
+        array_axes = [i for i in kept_axes if isinstance(index[i], (list, np.ndarray))]
+        if array_axes and advanced[-1] - advanced[0] + 1 != len(advanced):
+            kept_axes = array_axes + [i for i in kept_axes if i not in array_axes]
+
         # Slice/reduce metadata accordingly
         new_origin = (
             np.asarray(self.origin)[kept_axes] if np.ndim(self.origin) > 0 else self.origin
